@@ -200,6 +200,14 @@ impl VarH {
     /// performs the write through the matching public API call; returns the value handed back by
     /// replace / replace_with
     pub fn write(&self, op: &WriteOp) -> Option<Val> {
+        self.write_with(op, &mut || {})
+    }
+    /// as `write`; `inside` runs inside the closure handed to update / modify / replace_with
+    /// (before the call for set / replace)
+    pub fn write_with(&self, op: &WriteOp, inside: &mut dyn FnMut()) -> Option<Val> {
+        if matches!(op, WriteOp::Set(_) | WriteOp::Replace(_)) {
+            inside();
+        }
         match self {
             VarH::I(v) => match op {
                 WriteOp::Set(c) => {
@@ -208,18 +216,18 @@ impl VarH {
                 }
                 WriteOp::UpdateAdd(c) => {
                     let c = *c;
-                    v.update(move |x| md(x + c));
+                    v.update(|x| { inside(); md(x + c) });
                     None
                 }
                 WriteOp::ModifyMul(c) => {
                     let c = *c;
-                    v.modify(move |x| *x = md(*x * c));
+                    v.modify(|x| { inside(); *x = md(*x * c) });
                     None
                 }
                 WriteOp::Replace(c) => Some(Val::I(v.replace(md(*c)))),
                 WriteOp::ReplaceWithAdd(c) => {
                     let c = *c;
-                    Some(Val::I(v.replace_with(move |x| md(*x + c))))
+                    Some(Val::I(v.replace_with(|x| { inside(); md(*x + c) })))
                 }
             },
             VarH::P(v) => match op {
@@ -230,12 +238,12 @@ impl VarH {
                 }
                 WriteOp::UpdateAdd(c) => {
                     let c = *c;
-                    v.update(move |(a, b)| (md(a + c), b));
+                    v.update(|(a, b)| { inside(); (md(a + c), b) });
                     None
                 }
                 WriteOp::ModifyMul(c) => {
                     let c = *c;
-                    v.modify(move |p| p.1 = md(p.1 * c));
+                    v.modify(|p| { inside(); p.1 = md(p.1 * c) });
                     None
                 }
                 WriteOp::Replace(c) => {
@@ -245,7 +253,7 @@ impl VarH {
                 }
                 WriteOp::ReplaceWithAdd(c) => {
                     let c = *c;
-                    let (oa, ob) = v.replace_with(move |p| (p.0, md(p.1 + c)));
+                    let (oa, ob) = v.replace_with(|p| { inside(); (p.0, md(p.1 + c)) });
                     Some(Val::P(oa, ob))
                 }
             },
